@@ -687,6 +687,13 @@ fn primitive<'s>(input: &mut &'s str) -> PResult<Option<BoundSet>, SemverParseEr
     Parser::map(
         (operation, preceded(space0, partial_version)),
         |parsed| match parsed {
+            // `>*` and `<*` admit nothing, `>=*`, `<=*` and `=*` admit everything.
+            (GreaterThan | LessThan, Partial { major: None, .. }) => {
+                BoundSet::at_most(Predicate::Excluding((0, 0, 0, 0).into()))
+            }
+            (_, Partial { major: None, .. }) => {
+                BoundSet::at_least(Predicate::Including((0, 0, 0).into()))
+            }
             (GreaterThanEquals, partial) => {
                 BoundSet::at_least(Predicate::Including(partial.into()))
             }
@@ -899,10 +906,18 @@ fn partial_version<'s>(input: &mut &'s str) -> PResult<Partial, SemverParseError
     } else {
         (vec![], vec![])
     };
+    // A wildcard makes every component to its right irrelevant (`1.x.3` is `1.x`).
+    let minor = major.and(minor.flatten());
+    let patch = minor.and(patch.flatten());
+    let (pre, build) = if patch.is_some() {
+        (pre, build)
+    } else {
+        (vec![], vec![])
+    };
     Ok(Partial {
         major,
-        minor: minor.flatten(),
-        patch: patch.flatten(),
+        minor,
+        patch,
         pre_release: pre,
         build,
     })
@@ -1004,6 +1019,9 @@ fn tilde<'s>(input: &mut &'s str) -> PResult<Option<BoundSet>, SemverParseError<
             Bound::Lower(Predicate::Including((major, 0, 0).into())),
             Bound::Upper(Predicate::Excluding((major + 1, 0, 0, 0).into())),
         ),
+        (_, Partial { major: None, .. }) => {
+            BoundSet::at_least(Predicate::Including((0, 0, 0).into()))
+        }
         _ => None,
     })
     .context("tilde version range (ex: ~1.2.3)")
@@ -1068,6 +1086,9 @@ fn caret<'s>(input: &mut &'s str) -> PResult<Option<BoundSet>, SemverParseError<
                     (n, _, _) => Version::from((n + 1, 0, 0, 0)),
                 })),
             ),
+            Partial { major: None, .. } => {
+                BoundSet::at_least(Predicate::Including((0, 0, 0).into()))
+            }
             _ => None,
         },
     )
@@ -1084,18 +1105,7 @@ fn hyphen<'s>(input: &mut &'s str) -> PResult<Option<BoundSet>, SemverParseError
         let _ = space1(input)?;
         let upper = partial_version(input)?;
         let upper = match upper {
-            Partial {
-                major: None,
-                minor: None,
-                patch: None,
-                ..
-            } => Predicate::Excluding(Version {
-                major: 0,
-                minor: 0,
-                patch: 0,
-                pre_release: vec![Identifier::Numeric(0)],
-                build: vec![],
-            }),
+            Partial { major: None, .. } => Predicate::Unbounded,
             Partial {
                 major: Some(major),
                 minor: None,
@@ -1122,13 +1132,16 @@ fn hyphen<'s>(input: &mut &'s str) -> PResult<Option<BoundSet>, SemverParseError
             }),
             partial => Predicate::Including(partial.into()),
         };
-        let bounds = if let Some(lower) = lower {
-            BoundSet::new(
-                Bound::Lower(Predicate::Including(lower.into())),
-                Bound::Upper(upper),
-            )
-        } else {
-            BoundSet::at_most(upper)
+        // A missing or wildcard lower partial leaves the range open below.
+        let lower = match lower {
+            Some(Partial { major: None, .. }) | None => Predicate::Unbounded,
+            Some(lower) => Predicate::Including(lower.into()),
+        };
+        let bounds = match (lower, upper) {
+            (Predicate::Unbounded, Predicate::Unbounded) => {
+                BoundSet::at_least(Predicate::Including((0, 0, 0).into()))
+            }
+            (lower, upper) => BoundSet::new(Bound::Lower(lower), Bound::Upper(upper)),
         };
         Ok(bounds)
     }
